@@ -1,6 +1,6 @@
 CONSTANTS NK = 5  NM = 2  MaxPasses = 4
           Shapes <- ShapesT  Coins <- AllCoins  HashTypes <- StdHashTypes
 SPECIFICATION Spec
-INVARIANTS TypeOK ValidIff SignedSane NeverValidWithFewKeys Confluence ValidDependsOnUnionOnly OutcomesCharacterized
+INVARIANTS TypeOK ValidIff SignedSane NeverValidWithFewKeys Confluence ValidDependsOnUnionOnly
 PROPERTIES Monotone ValidUntouched FrameKept UnaskedUntouched
 CHECK_DEADLOCK FALSE
